@@ -30,7 +30,7 @@ CLAIMS = {
   "design": "6/C05"},
  "C06": {
   "text": "I-SP (resident <=> charged, len() == number of charged entries) is preserved by each processor event (New / Update / Delete / cleanup tick) and by client remove + its Delete, from an arbitrary quiescent I-SP state, for every admission/eviction decision of the policy (contract stub).",
-  "note": "Histories by induction; schedules only as sequences of whole events (DESIGN 5); the clear()-inside-handle_item race (D6) is documented, its harness is thorough-tier. <= 2 residents (1 for New in the quick tier), TransparentKeyBuilder (conflict 0).",
+  "note": "Histories by induction; schedules only as sequences of whole events (DESIGN 5); the clear()-inside-handle_item race (D6) is decided by the interposition harness c06_race_clear_in_new and is a recorded known finding (known_findings.json). <= 2 residents (1 for New in the quick tier), TransparentKeyBuilder (conflict 0).",
   "design": "6/C06"},
  "C07": {
   "text": "The REAL LFUPolicy::add (admission / eviction loop, fill_sample, room arithmetic) executed from an arbitrary I-P state with <= 2 residents (quick; <= 3 thorough) in arbitrary map slots, arbitrary charges, arbitrary max_cost including over-budget pre-states, arbitrary popularity per key, arbitrary incoming (key, cost): with room the newcomer is always admitted and nothing evicted; without room every resident that lost its charge was no more popular than the newcomer and no more popular than any survivor (least popular of the sampled candidates), is reported as a victim with its charge, evictions free enough room when the newcomer is admitted, and the newcomer is rejected exactly when strictly less popular than the least popular remaining candidate; oversize and resident keys handled as specified.",
@@ -45,15 +45,15 @@ CLAIMS = {
   "note": "Cache::try_insert_in's select! cannot be compiled by Kani; its pre-select half is what is decided, the enqueue and closed-flag test are by reading.",
   "design": "6/C09"},
  "C10": {
-  "text": "NARROWED: with the blocking half of WaitGroup::wait replaced by 'run the parked processor to quiescence, then the counter must be zero', wait() enqueues its marker behind earlier work, the marker is released on the processor path and on the cleaner path (clear() racing after the marker was queued), admitted inserts are retrievable and charged and removes applied when it returns; on a full buffer wait() and remove() return errors instead of blocking; on a closed cache Ok without queuing.",
+  "text": "NARROWED: with the blocking half of WaitGroup::wait replaced by 'run the parked processor to quiescence, then the counter must be zero', wait() enqueues its marker behind earlier work, the marker is released on the processor path and on the cleaner path (clear() racing after the marker was queued), admitted inserts are retrievable and charged and removes applied when it returns; an insert the processor had already taken off the buffer (buffer empty) when wait() is called is applied when wait() returns; on a full buffer wait() and remove() return errors instead of blocking; on a closed cache Ok without queuing.",
   "note": "NOT decided: 'never blocks forever' under races with close() (O3: by reading it can hang), other threads' operations, real wake-ups.",
   "design": "6/C10, 8"},
  "C11": {
   "text": "clear() + the processor's handling of the clear signal from an arbitrary quiescent state with <= 2 residents and optionally a buffered New item: nothing inserted before is retrievable, len and charged cost are zero, estimator zeroed, metrics counters zero, buffered insert discarded through on_evict; a key that had a TTL before the clear and is re-used with another TTL or none is only reclaimed by its NEW deadline.",
-  "note": "Interleavings of clear() with a processor that is in the middle of handle_item (D6) are documented, not claimed.",
+  "note": "clear() landing between policy.add and store.try_insert of an in-flight item (D6) is decided by c11_race_clear_in_new: a recorded known finding.",
   "design": "6/C11"},
  "C13": {
-  "text": "Step lemmas decided by the solver for ALL inputs within bounds: from an arbitrary counter row / arbitrary 4-row sketch with arbitrary seeds, increment raises exactly the addressed counter by one saturating at 15 and never lowers another estimate, reset halves every counter, clear zeroes; CountMinSketch::new(n) for every n in [1,65536] yields rows that can hold mask+1 counters and a fresh sketch estimates 0 then 1; TinyLFU step: estimate after increment == min(estimate+1, 16) unless the aging reset fired, in which case w=0, doorkeeper empty and counters halved; a batch of 4 keys applied to a cleared estimator gives estimate >= #occurrences. By induction over these steps: estimate >= min(16, #recorded since last reset).",
+  "text": "Step lemmas decided by the solver for ALL inputs within bounds: from an arbitrary counter row / arbitrary 4-row sketch with arbitrary seeds, increment raises exactly the addressed counter by one saturating at 15 and never lowers another estimate, reset halves every counter, clear zeroes; CountMinSketch::new(n) for every n in [1,65536] yields rows that can hold mask+1 counters and a fresh sketch estimates 0 then 1; TinyLFU step: estimate after increment == min(estimate+1, 16) unless the aging reset fired, in which case w=0, doorkeeper empty and counters halved; TinyLFU::new(n) has aging period n for every n in [1,65536]; a batch of 4 keys applied to a cleared estimator gives estimate >= #occurrences, and a batch that straddles an aging reset loses no key. By induction over these steps: estimate >= min(16, #recorded since last reset).",
   "note": "Rows of 1 and 4 bytes in the step harnesses (the loops are width-generic; other widths are outside the bounded claim), doorkeeper of 64-512 bits, seeds arbitrary (RNG stubbed by kani::any). Histories are covered by induction over one step from an arbitrary state, not by exploring sequences.",
   "design": "6/C13"},
  "C14": {
